@@ -24,6 +24,23 @@ CLAIMS = {
     ),
 }
 
+CLAIMS["C18"] = dict(
+    technique="Lean 4 totality theorems for the lexer/parser/evaluator model (parser loop for every operator table) + exhaustive short-string correspondence + exception-class oracle",
+    text="Machine-checked proof that the model of ptera.selector.parse/_select (hand-written lexer matchers for the three "
+         "regular expressions, the operator-precedence loop, every registered evaluation action) can only fail with a "
+         "syntax or selector error: the lexer consumes >=1 character per token for every Unicode classification, the "
+         "parser loop terminates and never pops an empty stack for EVERY operator table and token list, no action "
+         "fails internally for ANY parse tree. The operator table, lexer definitions and action registry are regenerated "
+         "from the source each run; model and implementation are compared on every string of <=3 (quick) / <=4 (thorough) "
+         "tokens over a 32-token alphabet plus random/Unicode/mutated strings (tokens, parse tree, compiled selector, "
+         "error class and offset); the implementation's exception class is checked for parse, select(env) and probe "
+         "creation/activation, including the refusals the property lists.",
+    design_ref="DESIGN.md section 5, C18",
+    note="Modelled, not verified: Python's re engine (the three regexes are re-implemented by hand and validated by the "
+         "correspondence), Unicode \\s/\\w classification (a parameter of the model), environment resolution in select() "
+         "(error classes checked on the implementation only).",
+)
+
 PENDING_REASON = ("not claimed yet in this build: the Lean model and correspondence check for this property are "
                   "still under construction (see DESIGN.md section 11); the technique applies and the property "
                   "will move to `checks` when its check exists")
